@@ -1,5 +1,5 @@
 \* exhaustive (thorough): every ledger of <= 3 postings from the pool of 14, 198 shapes;
-\* every directive list of <= 4 of 15 directives, 14 PRINT filters
+\* every directive list of <= 4 of 15 directives, 20 PRINT filters (6 of them over tags / links)
 CONSTANTS
   Headers <- HeadersDef
   Pool <- Pool14
